@@ -439,6 +439,10 @@ pub trait MapValidBasic<T: IsNone>: TrustedLen<Item = T> + Sized {
                             break;
                         }
                     }
+                    // the added outer bounds are open: the type's minimum is in the first bin
+                    if out.is_none() && add_bounds && value <= T::Inner::min_() {
+                        out = labels.titer().next();
+                    }
                     out.ok_or_else(|| terr!(func = cut, "value: {:?} not in bins", value))
                 }
             })))
@@ -458,6 +462,10 @@ pub trait MapValidBasic<T: IsNone>: TrustedLen<Item = T> + Sized {
                             out = Some(label.clone());
                             break;
                         }
+                    }
+                    // the added outer bounds are open: the type's maximum is in the last bin
+                    if out.is_none() && add_bounds && value >= T::Inner::max_() {
+                        out = labels.titer().next_back();
                     }
                     out.ok_or_else(|| terr!(func = cut, "value: {:?} not in bins", value))
                 }
